@@ -372,6 +372,7 @@ class RawWorld:
         if f not in self.h:
             return "missing", None, None, slots
         cur_f, cur = f, self.h[f]["/"]
+        slots.add((f, -1, ""))                      # marker: the traversal is inside file f
         todo = list(comps(p) if isinstance(p, str) else p)
         while todo:
             if budget == 0:
@@ -392,6 +393,7 @@ class RawWorld:
                 if f2 not in self.h:
                     return "missing", None, None, slots
                 cur_f, cur = f2, self.h[f2]["/"]
+                slots.add((f2, -1, ""))
                 todo = comps(l.path) + todo
             else:
                 cur = cur[c]          # a hard link: one component, opened through its parent
